@@ -42,7 +42,7 @@ def cases(tier, rng):
     # a UDP endpoint protected by a shared secret: equal and different secrets, one side without
     secrets = ["none", "abc", "abd", "ABC", "ab", "abcd", "p%40ss%3Aword", "x" * 40]
     if tier == "thorough":
-        secrets += ["%d" % rng.below(10 ** 9) for _ in range(4)]
+        secrets += ["k%d" % rng.below(10 ** 9) for _ in range(4)]   # (a bare number would be read as an integer token, not as a word)
     quick_pairs = {("none", "none"), ("abc", "abc"), ("abc", "abd"), ("abc", "ABC"), ("abc", "none"), ("none", "abc"), ("ab", "abc"),
                    ("p%40ss%3Aword", "p%40ss%3Aword"), ("x" * 40, "x" * 40)}
     for a in secrets:
